@@ -411,5 +411,5 @@ func TestC02_EventTriggerEndToEnd(t *testing.T) {
 		"partitions avoid the open finding trigger-registered-inside-range-invisible the way C16 does (counted as excluded); soundness of fired rows does not depend on it",
 		"identities are marked decrypted only on chains without a fork (a rollback re-inserts a registration row with decrypted=false; not judged here)",
 	)
-	runRapid(t, N(500, 24000), func(rt *rapid.T) { runC02Case(rt, 3) })
+	runRapid(t, N(1000, 24000), func(rt *rapid.T) { runC02Case(rt, 3) })
 }
